@@ -38,7 +38,7 @@ pub fn cases(thorough: bool, seed: u64) -> Vec<Params> {
                 }
             }
         }
-        for k in 0..7u64 {
+        for k in 0..8u64 {
             out.push(Params { n, t, ids: IdSet::Default, subset: (0..n as usize).collect(), variant: V_REJECT, aux: k, seed });
         }
     }
@@ -358,7 +358,31 @@ pub fn run<C: Ciphersuite, L: Lab<C>>(lab: &mut L, p: &Params) {
                         }
                     }
                 }
-                _ => {
+                7 => {
+                    // distributed variant, a CONSISTENT cheater: it takes part with an ordinary key-generation
+                    // contribution (dkg::part1: full-length commitment, non-zero constant term, valid proof)
+                    // and shares consistent with it. Every honest receiver must refuse at the first step
+                    // that consumes it; if not, the refreshed group no longer signs for the old key.
+                    let m = ids.len() as u16;
+                    let cheat = ids[(p.seed as usize + 1) % ids.len()];
+                    let mut s1 = BTreeMap::new();
+                    let mut p1 = BTreeMap::new();
+                    for id in ids.iter().filter(|i| **i != cheat) {
+                        if let Ok((s, pk)) = refresh_dkg_part1::<C, _>(*id, m, p.t, lab.rng()) {
+                            s1.insert(*id, s);
+                            p1.insert(*id, pk);
+                        }
+                    }
+                    if let Ok((_, cheat_pkg)) = fc::keys::dkg::part1::<C, _>(cheat, m, p.t, lab.rng()) {
+                        p1.insert(cheat, cheat_pkg);
+                        for me in ids.iter().filter(|i| **i != cheat) {
+                            let others: BTreeMap<_, _> = p1.iter().filter(|(k, _)| *k != me).map(|(k, v)| (*k, v.clone())).collect();
+                            let r = refresh_dkg_part2(s1[me].clone(), &others);
+                            lab.check(r.is_err(), "a distributed refresh refuses a contribution that is an ordinary key-generation package (non-zero constant term)");
+                        }
+                    }
+                }
+                6 | _ => {
                     // a removed participant cannot sign with the refreshed group
                     if ids.len() > t {
                         let rem2: Vec<Identifier<C>> = ids.iter().skip(1).copied().collect();
